@@ -25,6 +25,16 @@ returned normally; nothing hangs once the peer keeps reading.
            send lock are cancelled: every later sender must still succeed and the peer must still decrypt everything (the
            packet of the cancelled call itself may or may not arrive - its records are already in the write BIO)
 
+  client-first-use / udp-first-use   N senders on a FRESH AsyncTCPNetworkClient / AsyncUDPNetworkClient built from (host, port):
+           the first call performs the connection lazily under the send lock (asyncio.Lock or FairLock), the others queue up.
+           The connection (UDP: name resolution) takes 0..12 ticks and succeeds / is refused (UDP: ENETUNREACH, unknown name) /
+           never completes (TCP); 0-2 task.cancel() from a timer callback at a drawn half-tick (possibly the tick at which the
+           connection completes) or before a drawn loop iteration, on the connecting sender or on a queued one.  Connection
+           established and connecting sender not cancelled => every non-cancelled call succeeds; attempt failed or cancelled =>
+           every non-cancelled call ends with success, ClientClosedError or an OSError (possibly grouped: create_connection()
+           reports its OSErrors in an ExceptionGroup) - nothing else; the wire carries exactly the packets of the calls that
+           reported success
+
 Cancellation of queued senders (``*-fairlock`` and ``tls`` harnesses, up to 3 per run, never the lock owner): from a polling
 task woken by a timer, and/or from an iteration hook (``cancel before iteration j``), any queue position, biased towards the
 iteration in which the lock owner is about to run - i.e. the iteration in which it releases: the victim's CancelledError is
@@ -70,10 +80,14 @@ RULE = (
     "on the send lock at any queue position, from a timer-woken task or from an iteration hook biased to the iteration in which the "
     "owner releases (cancellation processed between release and the head waiter's resumption); oracle = independent decoder: wire == "
     "multiset of packets of the calls that returned, per-sender order, every non-cancelled call returned normally, no hang; tls: the "
-    "peer decrypts everything, a call cancelled while queued may still have its packet delivered whole at most once"
+    "peer decrypts everything, a call cancelled while queued may still have its packet delivered whole at most once; "
+    "client-first-use / udp-first-use: 2-5 senders on a not yet connected async TCP/UDP client (lazy connection by the first call under "
+    "the send lock), connection delay 0..12 ticks, outcome ok / refused / never (UDP: unreachable / unknown name), 0-2 cancels of the "
+    "connecting or of a queued sender at a drawn half-tick or loop iteration; after a failed or cancelled attempt a call may only end "
+    "with success, ClientClosedError or (grouped) OSError, and the wire carries exactly the successful calls' packets"
 )
 COMPONENTS_REAL = [
-    "AsyncTCPNetworkClient, AsyncTCPNetworkServer/_ConnectedClientAPI, lowlevel AsyncStreamServer/ConnectedStreamClient, AsyncStreamEndpoint",
+    "AsyncTCPNetworkClient (also lazily connecting), AsyncUDPNetworkClient (lazily connecting), AsyncTCPNetworkServer/_ConnectedClientAPI, lowlevel AsyncStreamServer/ConnectedStreamClient, AsyncStreamEndpoint",
     "TCPNetworkClient, UDPNetworkClient (blocking, real threads), AsyncTLSStreamTransport",
     "FairLock, ResourceGuard, StreamDataProducer, AsyncioTransportStreamSocketAdapter, WriteFlowControl, asyncio backend TaskGroup/CancelScope",
     "CPython asyncio selector event loop and _SelectorSocketTransport (write buffer, pause/resume_writing)",
@@ -266,6 +280,8 @@ class _Workload:
         # by the lock owner, so the packet of a call cancelled there may legitimately reach the peer (whole, at most once)
         self.cancelled_may_be_sent = False
         self.locks: list[Any] = []  # tracking locks whose waiters may be cancelled
+        self.in_call: set[Any] = set()  # sender tasks currently inside send_packet()
+        self.failure_allowed: Callable[[BaseException], bool] | None = None  # first-use harnesses, see sender()
         self.cancel_targets: set[Any] = set()
         if timed and not self.baseline:
             for lst in self.plan:
@@ -314,10 +330,11 @@ class _Workload:
                 self.world.probe("call-while-%d-other-calls-outstanding" % min(self.inflight, 3))
             self.inflight += 1
             it = self.world.counters["loop_iterations"]
+            me = asyncio.current_task()
+            self.in_call.add(me)
             try:
                 await send_packet(packet)
             except asyncio.CancelledError:
-                me = asyncio.current_task()
                 if me not in self.cancel_targets:
                     raise
                 self.cancel_targets.discard(me)
@@ -325,7 +342,12 @@ class _Workload:
                 self.calls.append((packet[0], packet[1], "cancelled@lock"))
                 self.world.log("send_cancelled", self.name, packet[0], packet[1])
             except Exception as exc:  # the property: every call succeeds
-                self.calls.append((packet[0], packet[1], type(exc).__name__))
+                # first-use harnesses: once the (lazy) connection attempt has failed or was cancelled, a call may report that
+                # (ClientClosedError / OSError); nothing else
+                kind = type(exc).__name__
+                if self.failure_allowed is not None and self.failure_allowed(exc):
+                    kind = "allowed@" + kind
+                self.calls.append((packet[0], packet[1], kind))
                 self.world.log("send_raised", self.name, packet[0], packet[1], type(exc).__name__)
             else:
                 self.calls.append((packet[0], packet[1], "ok"))
@@ -335,6 +357,7 @@ class _Workload:
                     self.world.probe("send-suspended")
             finally:
                 self.inflight -= 1
+                self.in_call.discard(me)
 
     def sender_sync(self, idx: int, send_packet: Callable[[Any], Any]) -> None:
         """thread body (threads engine: time.sleep is virtual)"""
@@ -496,7 +519,8 @@ def _check_calls(wl: _Workload) -> tuple[list[tuple[int, int, int]], str]:
     ctx = f"harness={wl.name} plan={wl.world.notes} calls={wl.calls}"
     # a call made with a timeout may end in TimeoutError (timeout@lock / timeout@send), a call cancelled by the harness while it
     # was queued on the lock in CancelledError (cancelled@lock); nothing else may fail
-    bad = [c for c in wl.calls if c[2] != "ok" and not c[2].startswith("timeout@") and c[2] != "cancelled@lock"]
+    # (first-use harnesses: allowed@<Type> = ClientClosedError / OSError after the connection attempt failed or was cancelled)
+    bad = [c for c in wl.calls if c[2] != "ok" and not c[2].startswith(("timeout@", "allowed@")) and c[2] != "cancelled@lock"]
     if bad:
         raise Violation("every-call-succeeds", f"send_packet raised for (sender, seq, exception) {bad}; {ctx}", key=f"C12/{wl.name}/call-raised/{bad[0][2]}")
     if len(wl.calls) != len(planned):
@@ -692,6 +716,175 @@ def _h_fairlock(world: World) -> None:
             box["closed"] = True
 
     _finish(world, wl, box, amain)
+
+
+# ===================================================================================================== first use of a lazy client
+def _h_first_use(world: World, udp: bool = False) -> None:
+    """N senders call send_packet concurrently on a FRESH client built from (host, port): the connection is performed lazily by
+    the first call, under the send lock, while the others queue up behind it.  The connection takes a drawn time and succeeds,
+    is refused (UDP: connect() -> ENETUNREACH, or the name does not resolve) or never completes (TCP); 0-2 task.cancel() at
+    drawn instants (a timer callback at a drawn half-tick, possibly the tick at which the connection completes, or before a
+    drawn loop iteration) hit the connecting sender (= the send lock owner) or a sender queued on the send lock - never a
+    sender that is already writing.  Oracle: connection established and the connecting sender not cancelled => every
+    non-cancelled call succeeds; connection attempt failed or cancelled => every non-cancelled call ends with success,
+    ClientClosedError or another OSError - nothing else (e.g. not RuntimeError); in every case the wire carries exactly the
+    packets of the calls that reported success (stream: contiguous, once; UDP: one datagram each)."""
+    import errno as _errno
+    import socket as _socket
+
+    from easynetwork.clients.async_udp import AsyncUDPNetworkClient
+
+    name = "udp-first-use" if udp else "client-first-use"
+    wl = _Workload(world, name, max_extra_senders=3, max_packets=3)
+    delay = 0 if wl.baseline else (0, 1, 4, 12)[world.choose("fu.delay", 4)]  # ticks the connection (UDP: the name resolution) takes
+    outcomes = ("ok", "unreachable", "noname") if udp else ("ok", "refused", "never")
+    conn = "ok" if wl.baseline else outcomes[(0, 0, 1, 2)[world.choose("fu.outcome", 4)]]
+    ncancel = 0 if wl.baseline else (0, 1, 1, 2)[world.choose("fu.ncancel", 4)]
+    events: list[tuple[int, int, int]] = []  # (0 = at half-tick / 1 = before iteration, when, role: 0 = the connecting sender, r = r-th queued sender)
+    for _ in range(ncancel):
+        kind = world.choose("fu.cancel.kind", 2)
+        when = world.choose("fu.cancel.t", 2 * delay + 4) if kind == 0 else 1 + world.choose("fu.cancel.iter", 12)
+        events.append((kind, when, world.choose("fu.cancel.role", 3)))
+    world.notes.update(connect=conn, connect_delay=delay, cancels=events)
+    if conn != "ok":
+        world.fault({"refused": "errno_econnrefused", "never": "connect_never", "unreachable": "errno_enetunreach", "noname": "dns_noname"}[conn])
+    if delay:
+        world.fault("connect_delay")
+    net = SimNet(world)
+    fair = False if wl.baseline else bool(world.choose("fu.fairlock", 2))
+    backend = _FairLockBackend(net, wl, fair=fair)  # the send lock (asyncio.Lock or the repo's FairLock) records who is queued on it
+    backend.sim_hosts = {"sim.host": [(_socket.AF_INET, "10.0.0.1")]}
+    box: dict[str, Any] = {}
+    state = {"attempt_over": conn != "ok", "connector_cancelled": False}
+
+    def connection_error(exc: BaseException) -> bool:
+        # ClientClosedError is an OSError; a failed create_connection() reports its OSError(s) wrapped in an ExceptionGroup
+        if isinstance(exc, BaseExceptionGroup):
+            return bool(exc.exceptions) and all(connection_error(e) for e in exc.exceptions)
+        return isinstance(exc, OSError)
+
+    wl.failure_allowed = lambda exc: state["attempt_over"] and connection_error(exc)
+    peer_dgram: Any = None
+    if udp:
+        backend.getaddrinfo_delay = delay * TICK
+        peer_dgram = SimSocket(net, _socket.AF_INET, _socket.SOCK_DGRAM, 0, "peer")
+        peer_dgram.bind(("10.0.0.1", 7000))
+
+        def on_dgram_connect(sock: SimSocket, addr: tuple) -> Any:
+            wl.configure(net, sock, ops=("sendto", "send"))
+            return OSError(_errno.ENETUNREACH, "Network is unreachable") if conn == "unreachable" else None
+
+        net.dgram_connect_fault = on_dgram_connect
+    else:
+        net.default_capacity = wl.capacity
+        net.default_delivery = lambda pipe_name: wl.delivery if pipe_name.endswith("@peer") else None  # type: ignore[assignment,return-value]
+
+        def on_peer(peer: SimSocket) -> None:
+            box["reader"] = _BurstReader(world, peer, wl.profile, wl.capacity)
+
+        def script(sock: SimSocket, addr: tuple) -> Any:
+            wl.configure(net, sock)
+            if conn == "ok":
+                return ("ok", delay * TICK, on_peer)
+            return ("never", 0.0) if conn == "never" else ("err", delay * TICK, _errno.ECONNREFUSED)
+
+        net.connect_script = script
+
+    async def amain() -> None:
+        loop = asyncio.get_running_loop()
+        if not wl.baseline:
+            swarm_selector(world, loop.sim_selector)  # type: ignore[attr-defined]
+            # no spurious readiness: a connecting socket reported writable with SO_ERROR == 0 *is* an established connection
+            # for sock_connect(); a kernel never reports that spuriously
+            loop.sim_selector.spurious_den = 0  # type: ignore[attr-defined]
+        client: Any
+        if udp:
+            client = AsyncUDPNetworkClient(("sim.host" if conn != "noname" else "nowhere.invalid", 7000), DatagramProtocol(_PacketSerializer(wl.piece)), backend=backend)
+        else:
+            client = AsyncTCPNetworkClient(("127.0.0.1", 4000), wl.protocol, backend=backend)
+        it0 = world.counters["loop_iterations"]
+        t0 = loop.time()
+
+        def fire(role: int, fault: str, forced: bool = False) -> None:
+            lk = wl.locks[0]
+            owner = lk.owner if lk.locked() and lk.owner in wl.in_call and lk.owner not in wl.cancel_targets and not lk.owner.done() else None
+            queued = [t for t in lk.waiting if t in wl.in_call and t not in wl.cancel_targets and not t.done()]
+            victim: Any = None
+            if role == 0:
+                if owner is not None and not client.is_connected():
+                    victim = owner  # the sender that performs the connection
+            elif queued:
+                victim = queued[(role - 1) % len(queued)]
+            if victim is None:
+                if not forced:
+                    world.probe("first-use:cancel-found-nobody")
+                return
+            if role == 0:
+                state["attempt_over"] = state["connector_cancelled"] = True
+                world.probe("first-use:connecting-sender-cancelled:%d-queued" % min(len(queued), 3))
+            else:
+                world.probe("first-use:queued-sender-cancelled-%s" % ("while-connecting" if not client.is_connected() else "after-connection"))
+            wl.cancel_targets.add(victim)
+            victim.cancel()
+            world.fault(fault)
+            world.log("cancel", name, victim.get_name(), role)
+
+        def hook() -> None:
+            j = world.counters["loop_iterations"] - it0
+            hit = False
+            for kind, when, role in events:
+                if kind == 1 and when == j:
+                    fire(role, "cancel_at_iteration")
+                    hit = True
+            if hit:
+                loop._write_to_self()  # type: ignore[attr-defined]  # inside select(): what became ready must not wait for the network
+
+        timers = [loop.call_at(t0 + when * TICK / 2, fire, role, "cancel_at_time") for kind, when, role in events if kind == 0]
+
+        async def reaper() -> None:
+            # a connection that never completes only ends when its caller gives up: cancel the connecting sender, late
+            for _ in range(1000):
+                await asyncio.sleep(40 * TICK)
+                fire(0, "cancel_at_time", forced=True)
+            raise StepCap("C12 first-use reaper: 1000 rounds")
+
+        world.iteration_hooks.append(hook)
+        reap = loop.create_task(reaper(), name="c12-reaper") if conn == "never" else None
+        try:
+            await wl.run_senders(client.send_packet)
+        finally:
+            world.iteration_hooks.remove(hook)
+            for th in timers:
+                th.cancel()
+            if reap is not None:
+                reap.cancel()
+            await client.aclose()
+            box["closed"] = True
+
+    try:
+        with sim_sockets(net):
+            run_async(world, amain)
+    except Deadlock as exc:
+        raise Violation("no-hang", f"harness={name}: the senders never finish ({len(wl.calls)} of {sum(len(x) for x in wl.plan)} calls returned): {exc}; plan={world.notes}", key=f"C12/{name}/hang") from None
+    if not box.get("closed"):
+        raise HarnessError(f"C12 {name}: run ended before the client was closed")
+    if state["connector_cancelled"] or conn != "ok":
+        if any(c[2].startswith("allowed@") for c in wl.calls):
+            world.probe("first-use:a-later-call-reported-the-failed-attempt")
+    if udp:
+        _drain_world(world, lambda: False)
+        _check_datagrams(wl, [bytes(d) for d, _ in peer_dgram.dgram_q])
+        return
+    reader = box.get("reader")
+    if reader is None:
+
+        class _Nothing:
+            received = b""
+
+        _check(wl, _Nothing)
+        return
+    _drain_world(world, lambda: reader.saw_fin or reader.saw_rst)
+    _check(wl, reader)
 
 
 # ===================================================================================================== TLS harness
@@ -966,6 +1159,8 @@ HARNESSES = [
     Harness("server", _h_server, weight=1),
     Harness("endpoint-fairlock", _h_fairlock, weight=1),
     Harness("client-fairlock", lambda w: _h_client(w, True), weight=1),
+    Harness("client-first-use", _h_first_use, weight=1),
+    Harness("udp-first-use", lambda w: _h_first_use(w, True), weight=1),
     Harness("server-fairlock", lambda w: _h_server(w, True), weight=1),
     Harness("tls", _h_tls, weight=1),
     Harness("threads-tcp", _h_threads_tcp, weight=2),
